@@ -29,11 +29,14 @@ def cause(msg, exc):
 
 
 PRES = None
+CT = {}
+ST = {}
 
 
 def mutate(node, rng):
     """returns (mutated copy, description) - each mutation adds something the output must keep or the parser must refuse"""
     d = copy.deepcopy(node)
+    copy_root = d
     nodes = []
 
     def walk(n):
@@ -42,7 +45,23 @@ def mutate(node, rng):
             walk(k)
     walk(d)
     n = rng.choice(nodes)
-    k = rng.randrange(5)
+    k = rng.randrange(7)
+    if k >= 5:
+        # a DECLARED attribute with a value its type refuses in every spelling (wrong enumeration token, non-number, out of range)
+        cand = []
+        for x in nodes:
+            for an, at, req in (CT.get(x['type']) or {'attrs': []})['attrs']:
+                sd = ST.get(at)
+                if ':' in an or at in ('', 'xs:token', 'xs:string', 'xs:ID', 'xs:IDREF', 'xs:NMTOKEN'):
+                    continue
+                if sd is not None and not sd['enum'] and not sd['patterns'] and sd['base'] in ('xs:token', 'xs:string') and sd['minLength'] is None and sd['union'] is None:
+                    continue
+                cand.append((x, an))
+        if cand:
+            x, an = rng.choice(cand)
+            x['attrs'] = [a for a in x['attrs'] if a[0] != an] + [[an, 'xx invalid value', "'xx invalid value'"]]
+            return copy_root, 'declared attribute %s of <%s> with an invalid value' % (an, x['tag'])
+        k = 0
     if k == 0:
         n['attrs'].append(['no-such-attribute', 'v', "'v'"])
         return d, 'unknown attribute on <%s>' % n['tag']
@@ -77,8 +96,9 @@ def run(rep):
     rng = random.Random(rep.seed * 3 + 9)
     quick = rep.tier == 'quick'
     G = docgen.Gen(g, rng)
-    global PRES
+    global PRES, CT, ST
     PRES = lambda t: docgen.preserves_space(g, t)
+    CT, ST = g['ctypes'], g['stypes']
     cases = []
     for name in sorted(g['elements']):
         for _ in range(2 if quick else 15):
